@@ -182,31 +182,31 @@ def pconsPoint (op : POp) (ks : List Nat) : Bool :=
   | _, _ => false
 
 def pconsPairsCheck : Bool :=
-  allOps.all fun op => (List.range 10).all fun i => (List.range 10).all fun j => pconsPoint op [i, j]
+  allOps.all fun op => (List.range nKinds).all fun i => (List.range nKinds).all fun j => pconsPoint op [i, j]
 
 def fsiTriplesCheck : Bool :=
-  (List.range 10).all fun i => (List.range 10).all fun j => (List.range 10).all fun k => pconsPoint .fsi [i, j, k]
+  (List.range nKinds).all fun i => (List.range nKinds).all fun j => (List.range nKinds).all fun k => pconsPoint .fsi [i, j, k]
 
 theorem pconsPairsCheck_true : pconsPairsCheck = true := by decide +kernel
 
 theorem fsiTriplesCheck_true : fsiTriplesCheck = true := by decide +kernel
 
-/-- every operation x every ordered pair of the 10 parent kinds: the modelled parent test refuses exactly the pairs
+/-- every operation x every ordered pair of the 17 parent kinds: the modelled parent test refuses exactly the pairs
     whose descriptors are incompatible (and never with an internal error) -/
-theorem pcons_pairs (op : POp) (i j : Nat) (hi : i < 10) (hj : j < 10) : pconsPoint op [i, j] = true := by
+theorem pcons_pairs (op : POp) (i j : Nat) (hi : i < nKinds) (hj : j < nKinds) : pconsPoint op [i, j] = true := by
   have h := pconsPairsCheck_true
   simp only [pconsPairsCheck, List.all_eq_true, List.mem_range] at h
   have hop : op ∈ allOps := by cases op <;> simp [allOps]
   exact h op hop i hi j hj
 
-/-- from_single_intervals x every ordered triple of the 10 parent kinds -/
-theorem fsi_triples (i j k : Nat) (hi : i < 10) (hj : j < 10) (hk : k < 10) : pconsPoint .fsi [i, j, k] = true := by
+/-- from_single_intervals x every ordered triple of the 17 parent kinds -/
+theorem fsi_triples (i j k : Nat) (hi : i < nKinds) (hj : j < nKinds) (hk : k < nKinds) : pconsPoint .fsi [i, j, k] = true := by
   have h := fsiTriplesCheck_true
   simp only [fsiTriplesCheck, List.all_eq_true, List.mem_range] at h
   exact h i hi j hj k hk
 
 /-- for ANY operand list: `from_single_intervals` accepts exactly when every parent equals the first one -/
-theorem fsiParents_ok_iff (k : PKey) (rest : List PKey) :
+theorem fsiParents_ok_iff (k : PChain) (rest : List PChain) :
     fsiParents (k :: rest) = .ok () ↔ ∀ k' ∈ rest, k' = k := by
   unfold fsiParents
   by_cases h : (rest.all fun k' => decide (k' = k)) = true
